@@ -1,14 +1,41 @@
 // ---- shims/decimal_validator_ext.rs : ASSUMED contracts used by unit c42_validator_math ------------
-// Companion of shims/decimal.rs (needs it and shims/bigint.rs included BEFORE this file).
+// Companion of shims/decimal.rs (needs it included BEFORE this file).  Declares its own minimal opaque
+// I192 (value view, From<u16>, comparison, TryFrom -> u16) so that units need not load shims/bigint.rs.
 // Real code: radix-common/src/math/decimal.rs :: Decimal::{SCALE, attos, checked_powi},
 //            radix-common/src/math/bnum_integer/convert.rs :: impl_to_builtin!(I192 -> u16),
 //            core :: u16::to_be_bytes (as the wrapper fn u16_to_be_bytes).
-// (Not to be included together with shims/decimal_attos.rs: both declare Decimal::attos.)
+// (Not to be included together with shims/decimal_attos.rs or shims/bigint.rs: duplicate declarations.)
 pub mod decimal_validator_ext {
     use vstd::prelude::*;
     use super::decimal::*;
     use super::decimal::Decimal;
-    use super::bigint::I192;
+    use core::cmp::Ordering;
+
+    /// radix-common bnum_integer.rs :: I192 (192-bit signed integer), opaque with the integer view `v()`
+    #[verifier::external_body]
+    #[derive(Clone, Copy)]
+    pub struct I192 { d: [u64; 3] }
+    impl I192 { pub uninterp spec fn v(self) -> int; }
+    /// impl_from_builtin!(I192, .., u16): exact
+    impl From<u16> for I192 { #[verifier::external_body] fn from(x: u16) -> (r: I192) ensures r.v() == x as int { unimplemented!() } }
+    impl vstd::std_specs::convert::FromSpecImpl<u16> for I192 {
+        open spec fn obeys_from_spec() -> bool { false }
+        uninterp spec fn from_spec(x: u16) -> I192;
+    }
+    /// derived comparison on the wrapped bnum integer == comparison of the values
+    impl PartialEq for I192 { #[verifier::external_body] fn eq(&self, o: &I192) -> (r: bool) ensures r == (self.v() == o.v()) { unimplemented!() } }
+    impl vstd::std_specs::cmp::PartialEqSpecImpl for I192 {
+        open spec fn obeys_eq_spec() -> bool { true }
+        open spec fn eq_spec(&self, o: &I192) -> bool { self.v() == o.v() }
+    }
+    impl PartialOrd for I192 {
+        #[verifier::external_body]
+        fn partial_cmp(&self, o: &I192) -> (r: Option<Ordering>) ensures r == Some(cmp_int(self.v(), o.v())) { unimplemented!() }
+    }
+    impl vstd::std_specs::cmp::PartialOrdSpecImpl for I192 {
+        open spec fn obeys_partial_cmp_spec() -> bool { true }
+        open spec fn partial_cmp_spec(&self, o: &I192) -> Option<Ordering> { Some(cmp_int(self.v(), o.v())) }
+    }
 
     /// mathematical integer power (own copy: bigint::ipow lives in a module with clashing names)
     pub open spec fn ipow(b: int, n: nat) -> int decreases n { if n == 0 { 1 } else { b * ipow(b, (n - 1) as nat) } }
